@@ -1,19 +1,16 @@
 #!/bin/bash
-# Offline setup: create work directories, byte-check the framework, warm the numba cache of the current tree.
-cd "$(dirname "$0")"
+# Offline setup: create work directories, byte-check the framework, warm the numba caches of the current tree
+# (compiled mode and bounds-check build). Nothing is fetched; nothing outside /verif/.work is written.
+cd "$(dirname "$0")" || exit 1
 mkdir -p .work evidence replays
 /venv/bin/python -m compileall -q framework >/dev/null || exit 1
-/venv/bin/python - <<'PY'
+/venv/bin/python - <<'PY' || exit 1
 from framework import common
 import sys
-w = common.warm_cache("jit")
-print("jit cache warm-up: %.1fs" % w)
-sys.exit(0 if w >= 0 else 1)
+for mode in ("jit", "bc"):
+    w = common.warm_cache(mode, timeout=1500)
+    print("%s cache warm-up: %.1fs" % (mode, w))
+    if w < 0:
+        sys.exit(1)
 PY
-/venv/bin/python - <<'PY'
-from framework import common
-import sys
-w = common.warm_cache("bc", timeout=1500)
-print("bounds-check cache warm-up: %.1fs" % w)
-sys.exit(0 if w >= 0 else 1)
-PY
+exit 0
